@@ -441,8 +441,32 @@ def run(M, c):
     if not isdate:
         judge_add(M, "operators", x, [-v for v in cp], m1, "operator-minus" + ("-interval" if isinstance(D, P.Interval) else ""))
         sg = getattr(D, "_signature", None)
-        if isinstance(D, P.Interval) or (sg is not None and [sg[n] for n in NAMES] == cp):
+        agree = False
+        if c["via"] % 3 == 0:
+            # d was built from `vals`: whichever of the two readings `+` follows (the arguments d was built from or its
+            # normalised components), the result is fixed whenever the calendar model gives both the same answer
+            ea, ec = model(x, vals), model(x, cp)
+            agree = ea is not None and ea == ec
+        if isinstance(D, P.Interval) or agree or (sg is not None and [sg[n] for n in NAMES] == cp):
             judge_add(M, "operators", x, cp, p1, "operator-plus" + ("-interval" if isinstance(D, P.Interval) else ""))
+        tot = vals[6] * 10**6 + vals[7]
+        if tot and c["via"] % 3 != 2:
+            # the same amount with its sub-minute part handed to Duration() as milliseconds= (+ a microsecond rest, split
+            # by floor or towards zero): a constructor argument add() does not have
+            ms = tot // 1000 if c["via"] % 2 else -((-tot) // 1000)
+            kwm = dict(zip(NAMES[:6], vals[:6]), milliseconds=ms, microseconds=tot - ms * 1000)
+            try:
+                Dm = P.duration(**{n: v for n, v in kwm.items() if v})
+                cpm = comps(Dm)
+                pm, rpm, mm = x + Dm, Dm + x, x - Dm
+            except (OverflowError, ValueError):
+                M.count("out_of_range")
+            else:
+                ea, ec = model(x, vals), model(x, cpm)
+                if ea is not None and ea == ec:
+                    judge_add(M, "operators", x, cpm, pm, "operator-plus-ms")
+                    judge_add(M, "operators", x, cpm, rpm, "operator-rplus-ms")
+                judge_add(M, "operators", x, [-v for v in cpm], mm, "operator-minus-ms")
     else:
         e1 = date_model(x, [-v for v in cp])
         if e1 is not None:
